@@ -242,6 +242,10 @@ func c02(w *core.World, r *core.Report) {
 		}
 	}
 
+	// ---- OWNER-READ-COMPLETE (shared with C09)
+	r.Rule("OWNER-READ-COMPLETE", 1, "TreeCacheClientImpl.ReadUpdatesOwner reads the owner's complete path list per priority (whole list, or chunks whose loop runs while 'index < len(list)'): entries that are not loaded cannot be marked for deletion and survive a shrink or delete of the intent.")
+	ruleOwnerReadComplete(w, r, "OWNER-READ-COMPLETE")
+
 	// ---- MARK-DELETE
 	r.Rule("MARK-DELETE", 3, "in RootEntry.LoadIntendedStoreOwnerData: the owner's stored entries are read with ReadUpdatesOwner(owner), added to the tree, and markOwnerDelete(owner) executes on every path to a success return and after the add loop; markOwnerDelete marks the owner's variant (GetByOwner + MarkDelete) and recurses into ALL children.")
 	{
@@ -620,6 +624,39 @@ func c09(w *core.World, r *core.Report) {
 	if low := w.Func("pkg/datastore", "Datastore", "lowlevelTransactionSet"); low != nil {
 		r.Rule("INVOLVED-PATHS", 3, "the set of paths for which the other intents' alternatives are loaded is ONE accumulator created before the per-intent loop, joined with the old and the new content of every intent, and the read skips the transaction's own intents. With a per-intent (overwritten) set, a multi-intent transaction that re-applies unchanged intents sees no alternatives for all but the last intent and computes a non-empty diff.")
 		ruleInvolvedPaths(w, r, low, "INVOLVED-PATHS")
+	}
+
+	// ---- OWNER-READ-COMPLETE (shared with C02)
+	r.Rule("OWNER-READ-COMPLETE", 1, "the stored version of a re-submitted intent is loaded completely: TreeCacheClientImpl.ReadUpdatesOwner hands Read the whole per-priority path list of the keys index, or reads it in chunks whose loop runs while 'index < len(list)'. Entries that are not loaded look new, are flagged New and are sent again.")
+	ruleOwnerReadComplete(w, r, "OWNER-READ-COMPLETE")
+
+	// ---- CASE-NOT-NEW
+	r.Rule("CASE-NOT-NEW", 1, "choice resolution on a re-apply: in populateChoiceCaseResolvers the 'new' marker handed to choiceCasesResolver.SetValue depends on a comparison with what the index holds for ALL owners (a GetBranchesHighesPrecedence lookup without owner filters): a branch that was stored with the same precedence before the transaction is not new, otherwise the case an unchanged intent rules is missing from the 'old best case' and a delete for the other intents' case is sent with every re-apply.")
+	if pop := w.Func("pkg/tree", "sharedEntryAttributes", "populateChoiceCaseResolvers"); pop != nil {
+		n := 0
+		for _, sv := range core.CallsTo(pop, "tree.choiceCasesResolver.SetValue") {
+			a := core.CallArgs(sv)
+			if len(a) != 3 {
+				continue
+			}
+			n++
+			ok := false
+			sl := core.DataSlice(pop, []ssa.Value{a[2]})
+			for v := range sl.Values {
+				c, isCall := v.(*ssa.Call)
+				if !isCall || !core.CalleeIs(c, "tree.TreeCacheClient.GetBranchesHighesPrecedence") {
+					continue
+				}
+				ca := core.CallArgs(c)
+				if len(ca) == 3 && core.IsNilConst(ca[2]) {
+					ok = true
+				}
+			}
+			r.Check(ok, "CASE-NOT-NEW", core.Site(pop, "new marker compares with the stored precedence"), w.InstrPos(sv), "the marker must not be true for a contribution that was stored with the same precedence before")
+		}
+		if n == 0 {
+			r.Undecided("CASE-NOT-NEW", core.Site(pop, "SetValue"), w.Pos(pop.Pos()), "no SetValue call")
+		}
 	}
 
 	// ---- EQUAL-BRANCH
